@@ -222,8 +222,9 @@ class C17(Check):
                 if fault in ("crash", "lose"):
                     fault = {fault: rng.randrange(0, 12)}
                 f = rng.choice(files)
-                t = rng.choice([0.0, 1.5, 0.1 * k + 0.1, 1e-310, -0.0, 3.0e8, 0.1 + 0.2])
-                ops.append({"op": "save", "io": i, "file": f, "time": t, "fault": fault})
+                t = rng.choice([0.0, 1.5, 0.1 * k + 0.1, 1e-310, -0.0, 3.0e8, 0.1 + 0.2, 0.00925, 250.0038])
+                ttype = rng.choice(["float", "float", "f32", "f64", "int"])
+                ops.append({"op": "save", "io": i, "file": f, "time": t, "ttype": ttype, "fault": fault})
                 saved.append((f, i))
             elif r < 0.85:
                 f, wi = rng.choice(saved)
@@ -686,6 +687,8 @@ class C17(Check):
             elif kind == "save":
                 i = op["io"] % nw
                 f, t, fault = op["file"], op["time"], op["fault"]
+                # the time stamp handed in may be any real scalar (a simulator's clock is often a numpy scalar)
+                t = {"float": float, "f32": np.float32, "f64": np.float64, "int": lambda x: int(x)}[op.get("ttype", "float")](t)
                 did_save = True
                 if fault in ("crash_all", "lose_all"):
                     dry = h5sim.FaultPlan()
